@@ -530,7 +530,7 @@ def c12_stale_lock(workflow, content_kind, use_async, x=1):
         # then finds the run non-deterministic): the resubmission (all inputs realised) executes outside the tracer
         with (NoTracing() if T.tracing() else contextlib.nullcontext()):
             try:
-                with E.deadline(25):
+                with E.deadline(40):
                     if use_async:
                         S.install()
                         S.reset(())
